@@ -1,6 +1,9 @@
 """runs the REAL tiling functions of bamBinCounts.py / utils/binning.py for C17.
 
-payload: {'cases': [[fn, args...], ...], 'contigs': [ {...}, ... ]}
+payload: {'cases': [[fn, args...], ...], 'contigs': [ {...}, ... ], 'histories': [...], 'gcases': [ {...}, ... ],
+          'texts': [ {...}, ... ]}
+gcases (contig level, see run_gcase): blacklisted_binning_contigs through a real BED / BED.gz file and a contig list,
+dict.items() or BAM header, optionally followed by bp_chunked; texts (see run_text): the records read from a BED text.
 a case uses the same encoding as the input of run_C17 mode 0 (see coq/Model/C17.v run_fn):
   [0, start, end, step]                      fill_range
   [1, rangelist, start, end]                 trim_rangelist
@@ -110,6 +113,118 @@ def run_history(B, steps, n):
     return out
 
 
+# ---------------------------------------------------------------- extension: contig level / BED text / bp on rows
+_BED_CACHE = {}
+CALL_SECONDS = float(os.environ.get('VERIF_C17_CALL_SECONDS', '8'))
+
+
+class NoResult(Exception):
+    """the implementation did not return within CALL_SECONDS (a legitimate call takes milliseconds): reported as a
+    refusal, so inside a theorem's precondition it is a violation with that input, never a hung check"""
+
+
+def _alarm(signum, frame):
+    raise NoResult('no result within %g s' % CALL_SECONDS)
+
+
+def limited(f):
+    import signal
+    old = signal.signal(signal.SIGALRM, _alarm)
+    signal.setitimer(signal.ITIMER_REAL, CALL_SECONDS)
+    try:
+        return f()
+    finally:
+        signal.setitimer(signal.ITIMER_REAL, 0)
+        signal.signal(signal.SIGALRM, old)
+
+
+def bed_path(key, data, gz):
+    """a BED file with the given bytes (plain or gzipped), written once per content"""
+    k = (key, gz)
+    if k not in _BED_CACHE:
+        path = os.path.join(os.environ['SCMO_SCRATCH'], 'g%d.bed%s' % (len(_BED_CACHE), '.gz' if gz else ''))
+        if gz:
+            import gzip
+            with gzip.open(path, 'wb') as f:
+                f.write(data)
+        else:
+            with open(path, 'wb') as f:
+                f.write(data)
+        _BED_CACHE[k] = path
+    return _BED_CACHE[k]
+
+
+def refusal(e):
+    """which exception refuses an input is not constrained: any Exception = the call raises (inside the precondition of a
+    theorem that is a violation, outside it is compared with the model's Raise); only non-Exception BaseExceptions
+    (MemoryError is an Exception too; KeyboardInterrupt, SystemExit) are reported as harness errors"""
+    if isinstance(e, Exception):
+        return [1]
+    return ['error', '%s: %s' % (type(e).__name__, e)]
+
+
+def run_gcase(B, bp_chunked, t, n):
+    """blacklisted_binning_contigs(contig list | dict items | BAM path, bin_size, fragment_size, BED path, whitelist);
+    t['text'] (the file content) overrides the canonical print of t['bed']; with t['bp'] the generator is passed through
+    bp_chunked.  Result: {'rows': ..} or {'rows': .., 'chunks': ..}; a refusal is [1]."""
+    try:        # preparing the files: a failure here is a harness error, never a refusal of the implementation
+        path = None
+        if t.get('text') is not None:
+            path = bed_path(t['text'], t['text'].encode('utf-8'), t.get('gz'))
+        elif t['bed'] is not None:
+            txt = ''.join('%s\t%d\t%d\n' % (c, s, e) for c, s, e in t['bed'])
+            path = bed_path(txt, txt.encode('utf-8'), t.get('gz'))
+        how = t.get('contigs_as', 'list')
+        if how == 'bam':
+            import pysam
+            res = os.path.join(os.environ['SCMO_SCRATCH'], 'gc%d.bam' % n)
+            header = {'HD': {'VN': '1.6', 'SO': 'coordinate'}, 'SQ': [{'SN': c, 'LN': ln} for c, ln in t['contigs']]}
+            with pysam.AlignmentFile(res, 'wb', header=header):
+                pass
+        elif how == 'items':
+            res = dict((c, ln) for c, ln in t['contigs']).items()
+        else:
+            res = [tuple(x) for x in t['contigs']]
+        wl = t['whitelist']
+        if wl is not None:
+            wl = {'set': set, 'tuple': tuple}.get(t.get('whitelist_as'), list)(wl)
+    except BaseException as e:
+        return {'rows': ['error', 'harness: %s: %s' % (type(e).__name__, e)]}
+    def call():
+        gen = B.blacklisted_binning_contigs(res, t['bin_size'], t['fragment_size'], blacklist_path=path, contig_whitelist=wl)
+        if t.get('bp') is None:
+            return {'rows': [list(x) for x in gen]}
+        chunks = [[list(x) for x in ch] for ch in bp_chunked(gen, t['bp'])]
+        return {'rows': [r for ch in chunks for r in ch], 'chunks': chunks}
+    try:
+        return limited(call)
+    except BaseException as e:
+        return {'rows': refusal(e), 'why': '%s: %s' % (type(e).__name__, str(e)[:200])}
+
+
+def run_text(B, t):
+    """the records blacklisted_binning_contigs reads from a BED text: per contig the (start, end) pairs in file order
+    (get_bins_from_bed_dict, the function it calls; get_bins_from_bed_iter as a fallback); coordinates as strings"""
+    try:
+        path = bed_path(t['text'], t['text'].encode('utf-8'), t.get('gz'))
+    except BaseException as e:
+        return ['error', 'harness: %s: %s' % (type(e).__name__, e)]
+    def call():
+        if hasattr(B, 'get_bins_from_bed_dict'):
+            d = B.get_bins_from_bed_dict(path)
+            return [[c, [[str(s), str(e)] for s, e in l]] for c, l in d.items()]
+        if hasattr(B, 'get_bins_from_bed_iter'):
+            d = {}
+            for c, s, e in B.get_bins_from_bed_iter(path):
+                d.setdefault(c, []).append([str(s), str(e)])
+            return [[c, l] for c, l in d.items()]
+        return ['missing']
+    try:
+        return limited(call)
+    except BaseException as e:
+        return refusal(e)
+
+
 def handler(p):
     old = sys.stdout
     sys.stdout = open(os.devnull, 'w')
@@ -120,10 +235,25 @@ def handler(p):
         out = [run_case(B, bp_chunked, c) for c in p.get('cases', [])]
         cont = [run_contigs(B, t, n) for n, t in enumerate(p.get('contigs', []))]
         hist = [run_history(B, h, n) for n, h in enumerate(p.get('histories', []))]
+        if p.get('gcases') or p.get('texts'):
+            try:        # backstop for a runaway allocation (a legitimate batch needs a few hundred MB)
+                import resource
+                resource.setrlimit(resource.RLIMIT_AS, (8 << 30, 8 << 30))
+            except Exception:
+                pass
+        # a time budget for the whole batch (a legitimate batch takes seconds): cases after it are reported as skipped
+        import time
+        t_end = time.time() + float(p.get('budget', 1e9))
+        gres = [run_gcase(B, bp_chunked, t, n) if time.time() < t_end else {'rows': ['skipped']}
+                for n, t in enumerate(p.get('gcases', []))]
+        tres = [run_text(B, t) if time.time() < t_end else ['skipped'] for t in p.get('texts', [])]
         same = bp_chunked2 is bp_chunked
+        import locale
+        enc = (locale.getpreferredencoding(False) or '').lower().replace('-', '')
     finally:
         sys.stdout = old
-    return {'out': out, 'contigs': cont, 'histories': hist, 'bp_chunked_same_object': same}
+    return {'out': out, 'contigs': cont, 'histories': hist, 'bp_chunked_same_object': same, 'gcases': gres, 'texts': tres,
+            'text_encoding': enc}
 
 
 if __name__ == '__main__':
